@@ -398,7 +398,9 @@ func c06(p *core.Program, r *core.Report) {
 	}
 
 	validatorThresholdRule(p, r, "validator-thresholds")
+	strideCacheRule(p, r, "stride-cache-coupled")
 	parsedNumberRule(p, r, "number-only-when-parsed")
+	ordinateFromStrconvRule(p, r, "ordinate-from-strconv")
 
 	// ---- GENSYNC
 	genSyncRule(p, r, "gensync")
